@@ -1,3 +1,4 @@
+import Sparrow.Proofs.BakeComposed
 import Sparrow.Proofs.PolygonFnEquiv
 import Sparrow.Proofs.VisibilityFnEquiv
 import Sparrow.Proofs.BakeGlueEquiv
@@ -263,3 +264,21 @@ theorem checkPoint2PatchVisibility_full_eq (thr eta : ℝ) (x : Nat → ℝ) (pc
   Sparrow.checkPoint2PatchVisibility_full_eq thr eta x pc sp nsp normals nS i
 
 end Sparrow.Props.C07.PolygonFn
+
+namespace Sparrow.Props.C07.Composed
+open Sparrow Sparrow.Generated.BakeGlue Sparrow.Generated.BakeKernels Sparrow.Generated.UniversalFn Sparrow.Generated.VisibilityFn
+
+/-- **the stored visibility matrix of the composed text is the model's line of sight**: entry `(i, j)` holds iff `i < j` and no patch
+    of the scene hides the two centroids from each other (`visibleThroughAll`) -/
+theorem bakeGeometry_visibility_composed
+    (ffu : (Nat → Nat → Nat → ℝ) → (Nat → Nat → ℝ) → (Nat → ℝ) → Nat → (Nat → Nat → Nat) → Nat → Nat → ℝ)
+    (thr eta : ℝ) (nv : Nat)
+    (P : Nat) (pc pn : Nat → Nat → ℝ) (pp : Nat → Nat → Nat → ℝ) (pa : Nat → ℝ) (ptw : Nat → Nat)
+    (hasM : Bool) (W nIn D T : Nat) (dIn dOut : Nat → Nat → Nat → ℝ) (bidx : Nat → Nat) (brdf : Nat → Nat → Nat → Nat → ℝ)
+    (fnone : Bool) (B : Nat) (att : Option (Nat → ℝ)) (junk : Nat → Nat → Nat) (i j : Nat) :
+    (bakeGeometry (vis2T thr eta P nv) ffu P pc pn pp pa ptw hasM W nIn D T dIn dOut bidx brdf fnone B att junk).1 i j =
+      (decide (i < j) && visibleThroughAll eta (Vec3.ofFn (fun q => pc i q)) (Vec3.ofFn (fun q => pc j q)) P
+        (fun s => ptsOf (fun k q => pp s k q)) nv (fun s => Vec3.ofFn (fun q => pn s q))) :=
+  Sparrow.bakeGeometry_visibility_composed ffu thr eta nv P pc pn pp pa ptw hasM W nIn D T dIn dOut bidx brdf fnone B att junk i j
+
+end Sparrow.Props.C07.Composed
